@@ -62,7 +62,7 @@ PINNED = {
 # values no longer alarms; a behavioural edit fails the named theorem.  (`fn read_tas` stays pinned: its obligation is `_partial`.)
 TRANSLATED = {D + "bds/bds50.rs": ["fn read_roll", "fn read_track", "fn read_groundspeed", "fn read_rate"],
               D + "bds/bds60.rs": ["fn read_heading", "fn read_ias", "fn read_mach", "fn read_vertical"]}
-TRANSLATED_FOR = {"C03", "C08"}
+TRANSLATED_FOR = {"C01", "C03", "C07", "C08"}
 import re
 try:
     pins = json.load(open(os.path.join(R, "gen", "pins.json"))) if only else {}
